@@ -689,7 +689,8 @@ func c09Harness(sc c09Scen) vsched.Harness {
 func c09DataEqual(kind string, got, want [][]byte) bool {
 	switch kind {
 	case "h264", "h264b", "h264k", "h264bk":
-		return dataEqual(stripAUD(got), want)
+		// (the fMP4 variants carry the written unit as it is; MPEG-TS has delimiters of its own)
+		return dataEqual(got, want) || dataEqual(stripAUD(got), stripAUD(want))
 	case "av1":
 		return dataEqual(av1StripSizes(got), want)
 	}
